@@ -237,6 +237,7 @@ type vc08World struct {
 	sparse bool // only a random third of the lookups of a sweep are issued
 	done   chan struct{}
 	arm    atomic.Bool            // the next DB lookup of a reader is held before it returns
+	nreads atomic.Int64           // DB lookups issued by readers so far
 	heldCh chan chan struct{}     // a reader reports that it is held (and how to release it)
 	held   [3][]vc08Held          // held readers per space (0 accounts, 1 resources, 2 KV)
 	ops    []interface{}
@@ -377,6 +378,7 @@ type vc08Held struct {
 }
 
 func (r *vc08Reader) hold() {
+	r.w.nreads.Add(1)
 	if r.w.arm.CompareAndSwap(true, false) {
 		rel := make(chan struct{})
 		r.w.heldCh <- rel
@@ -400,6 +402,12 @@ func (r *vc08Reader) LookupKeyValue(key string) (trackerdb.PersistedKVData, erro
 	d, err := r.AccountsReader.LookupKeyValue(key)
 	r.hold()
 	return d, err
+}
+
+func (r *vc08Reader) LookupCreator(cidx basics.CreatableIndex, ctype basics.CreatableType) (basics.Address, bool, basics.Round, error) {
+	a, ok, rnd, err := r.AccountsReader.LookupCreator(cidx, ctype)
+	r.w.nreads.Add(1)
+	return a, ok, rnd, err
 }
 
 // issue a public lookup with the next DB read held; if the lookup is answered without the DB it is
@@ -748,6 +756,7 @@ func (w *vc08World) blockedReader(b vc08Blocked) func() {
 		}
 	}
 	w.au.accountsMu.RUnlock()
+	reads0 := w.nreads.Load()
 	go func() {
 		var obs interface{}
 		switch b.kind {
@@ -778,11 +787,19 @@ func (w *vc08World) blockedReader(b vc08Blocked) func() {
 		}
 		ch <- result{obs}
 	}()
-	// it must not answer before postCommit
+	// wait until it has seen the database ahead of its memory round (its DB read of the first
+	// iteration); it must not answer before postCommit
+	deadline := time.Now().Add(20 * time.Second)
+	for w.nreads.Load() == reads0 {
+		if time.Now().After(deadline) {
+			w.t.Fatalf("blocked reader never reached the database")
+		}
+		time.Sleep(50 * time.Microsecond)
+	}
 	select {
 	case <-ch:
 		w.t.Fatalf("synchronised lookup %+v answered while the DB was ahead of memory", b)
-	case <-time.After(3 * time.Millisecond):
+	case <-time.After(200 * time.Microsecond):
 		w.stats["blocked_readers"]++
 	}
 	return func() {
